@@ -232,6 +232,9 @@ pub async fn run_scenario(sc: Sc) -> Run {
         }
     };
     run.a_id = Some(a_ref.get_id().to_string());
+    // monitors build: the bystander monitors A (no await since the spawn returned, so A cannot be gone yet)
+    #[cfg(feature = "alt")]
+    b_ref.get_cell().monitor(a_ref.get_cell());
 
     // stimuli
     let mut tasks = Vec::new();
